@@ -835,8 +835,8 @@ func TestC19(t *testing.T) {
 
 	// Exhaustive families. A sequence longer than the attempt limit is only reached by a client that
 	// already broke the limit, so the longest sequences are enumerated for the limits that can consume them.
-	fams := []dims{{seqLen: 3, maxAtts: []int{0, 1, 2, 3, 6}}}
-	exhaustiveNote := "all 7^3 fault sequences x 7 methods x limits {0,1,2,3,6} x 10 callbacks x 3 body kinds"
+	fams := []dims{{seqLen: 3, maxAtts: []int{0, 1, 2, 3}}}
+	exhaustiveNote := "all 7^3 fault sequences x 7 methods x limits {0 (default 5),1,2,3} x 10 callbacks x 3 body kinds (three faults cannot tell limits above 3 apart)"
 	if r.Thorough() {
 		fams = []dims{{seqLen: 4, maxAtts: []int{0, 1, 2, 3, 4, 5, 6}}, {seqLen: 5, maxAtts: []int{0, 5, 6}}}
 		exhaustiveNote = "all 7^4 fault sequences x 7 methods x limits {0..6} x 10 callbacks x 3 body kinds, and all 7^5 sequences for the limits {0 (default 5), 5, 6} that can consume five faults"
